@@ -1108,7 +1108,8 @@ def rw_dyncall(fi, args, spec=None):
     i = fi.item.body_open + 1
     while i < fi.item.body_close:
         if is_p(toks[i], '(') and not (toks[i - 1].kind == 'id' and toks[i - 1].text not in ('if', 'while', 'return', 'match', 'in', 'else')) \
-                and not (toks[i - 1].kind == 'punct' and toks[i - 1].text in (')', ']', '!', '>')):
+                and not (toks[i - 1].kind == 'punct' and toks[i - 1].text in (')', ']', '>')) \
+                and not (is_p(toks[i - 1], '!') and toks[i - 2].kind == 'id' and toks[i - 2].end == toks[i - 1].start):
             k = match_close(toks, i)
             if k + 1 < fi.item.body_close and is_p(toks[k + 1], '(') and toks[k + 1].start == toks[k].end:
                 inner = fi.sf.src[toks[i + 1].start:toks[k].start].strip()
